@@ -761,8 +761,11 @@ func runScriptCase(c *kit.Ctx, id string, i int) {
 	if s.cappedBatch > 0 {
 		c.Count("capped_batches", s.cappedBatch)
 	}
-	if s.maxBatch > 2048 {
-		c.Count("batch_over_2048", 1)
+	if sp.MaxRes == 2048 && s.maxBatch == 2048 {
+		c.Count("cases_with_batch_at_default_cap_2048", 1)
+	}
+	if sp.Shape == "long" && s.feat["throttled"] {
+		c.Count("long_cases_throttled_by_default_cache_8192", 1)
 	}
 	if len(ch.hdrs) > 0 {
 		c.Max("max_progress_rounds_permille_of_range", int64(1000*rounds/len(ch.hdrs)))
